@@ -249,22 +249,31 @@ def rule_R4(chk, repo):
                key=f'{rid}|{q}|sweep')
         n += 2
         # initial environment: identity on the trailing bond dimension
-        init = [s for s in fi.node.body if isinstance(s, ast.Assign) and norm(s.targets[0]) == tvar and
-                isinstance(s.value, ast.Call) and norm(s.value.func) == 'np.identity']
+        from ..defuse import inline_call
         defs = local_defs(fi.node)
-        dim0 = norm(expand(init[0].value.args[0], defs)) if len(init) == 1 and init[0].value.args else ''
+        init = []
+        for s in ast.walk(fi.node):
+            if isinstance(s, ast.Assign) and norm(s.targets[0]) == tvar and s.lineno < loop.lineno:
+                val = inline_call(s.value, repo, fi.module) or s.value
+                ids = [c_ for c_ in ast.walk(val) if isinstance(c_, ast.Call) and norm(c_.func) == 'np.identity']
+                if ids:
+                    init.append(ids[0])
+        dim0 = norm(expand(init[0].args[0], defs)) if len(init) == 1 and init[0].args else ''
         ok = len(init) == 1 and (dim0.endswith('.A[-1].shape[2]') or (dim0 == '1' and 'density' in kernel))
         chk.ob(rid, where(repo, fi, fi.node), f'{fi.name}: environment starts as the identity on the trailing bond', ok,
-               norm(init[0].value)[:60] if init else 'not found', key=f'{rid}|{q}|init')
+               norm(init[0])[:60] if init else "not found", key=f"{rid}|{q}|init")
         n += 1
         if 'operator' in kernel and 'density' not in kernel:
-            rs = [s for s in fi.node.body if isinstance(s, ast.Assign) and norm(s.targets[0]) == tvar and
-                  isinstance(s.value, ast.Call) and isinstance(s.value.func, ast.Attribute) and
-                  s.value.func.attr == 'reshape']
-            b = pmatch('(__D, 1, __D)', expand(rs[0].value.args[0], defs)) if len(rs) == 1 and rs[0].value.args else None
+            rs = []
+            for s in ast.walk(fi.node):
+                if isinstance(s, ast.Assign) and norm(s.targets[0]) == tvar and s.lineno < loop.lineno:
+                    val = inline_call(s.value, repo, fi.module) or s.value
+                    rs += [c_ for c_ in ast.walk(val) if isinstance(c_, ast.Call) and isinstance(c_.func, ast.Attribute) and
+                           c_.func.attr == 'reshape']
+            b = pmatch('(__D, 1, __D)', expand(rs[0].args[0], defs)) if len(rs) == 1 and rs[0].args else None
             ok = b is not None and b['__D'].endswith('.A[-1].shape[2]')
             chk.ob(rid, where(repo, fi, fi.node), f'{fi.name}: a dummy MPO bond of dimension 1 is inserted in the middle',
-                   ok, norm(rs[0].value)[:80] if rs else 'not found', key=f'{rid}|{q}|dummy-bond')
+                   ok, norm(rs[0])[:80] if rs else 'not found', key=f'{rid}|{q}|dummy-bond')
             n += 1
     fi = repo.func('operation.norm')
     rets = [r for r in ast.walk(fi.node) if isinstance(r, ast.Return)]
